@@ -9,6 +9,8 @@ class BackEdge(Exception):
 class OOB(Exception):
     """a concrete-offset access outside its object (C06 violation candidate)"""
     def __init__(s,kind,obj,off,n,size): s.kind=kind; s.obj=obj; s.off=off; s.n=n; s.size=size; Exception.__init__(s,'%s of %d bytes at %s+%s (object size %s)'%(kind,n,obj,off,size))
+GLOBAL_WRITES=[]      # (object name, where) for every store whose target is a non-constant, non-thread-local global: the shared-state footprint
+TRACK_GLOBALS=[True]
 class Unbound(Exception): pass
 class Unsupported(Exception):
     """engine limitation (never a verdict about the code)"""
@@ -187,6 +189,26 @@ class Module:
                 s.funcs[f.name]=f
             i+=1
 
+def block_succs(blk):
+    t=blk[-1] if blk else ''
+    return re.findall(r'label %([\w.$-]+)',t)
+def find_loop_header(f):
+    """header of the outermost loop: the phi-carrying block with the widest back edge (in block order)"""
+    idx={b:i for i,b in enumerate(f.order)}; best=None
+    for u in f.order:
+        for v in block_succs(f.blocks[u]):
+            if v in idx and idx[v]<=idx[u] and f.blocks[v] and ' = phi ' in f.blocks[v][0]:
+                span=idx[u]-idx[v]
+                if best is None or span>best[0]: best=(span,v)
+    if best is None: raise Unsupported('no loop found in '+f.name)
+    return best[1]
+def phi_nodes(f,block):
+    out=[]
+    for l in f.blocks[block]:
+        m=re.match(r'(%[\w.$-]+) = phi (.*)$',l)
+        if not m: break
+        out.append(m.group(1))
+    return out
 def _find(mod,name):
     """resolve a source-level function name to the IR symbol (the tree renames some with a randomx_ prefix macro)"""
     if name in mod.funcs: return name
@@ -228,6 +250,8 @@ class Mem:
     def store(s,p,val,nbytes):
         if p.obj not in s.objs: raise OOB('store through null/unknown pointer',p.obj,p.off,nbytes,0)
         if s.watch and p.obj in s.watch: s.watch[p.obj](p,nbytes)
+        if p.obj[0]=='@' and TRACK_GLOBALS[0] and not s.objs[p.obj].get('tls'):
+            GLOBAL_WRITES.append((p.obj, getattr(s,'where','')))
         o=s.objs[p.obj]
         if 'arr' in o:
             off=bv(p.off,64); s.checks.append((p.obj,off,nbytes,o['size'],'store'))
@@ -325,8 +349,11 @@ class Interp:
         m=re.search(r'(?:global|constant)\s+(.*)$',txt); rest=m.group(1)
         t,i=s.tp.parse(rest); init=rest[i:].strip(); init=re.sub(r',\s*(align|section|comdat).*$','',init)
         p=s.mem.alloc(t.size(),'@'+name); s.gl[name]=p
+        if 'thread_local' in txt.split('global')[0].split('constant')[0]: s.mem.objs[p.obj]['tls']=True
         if init and not init.startswith('align'):
-            s.store_const(p,t,init)
+            tg=TRACK_GLOBALS[0]; TRACK_GLOBALS[0]=False
+            try: s.store_const(p,t,init)
+            finally: TRACK_GLOBALS[0]=tg
         return p
     def store_const(s,p,t,txt):
         t=resolve(t); txt=txt.strip()
@@ -423,7 +450,7 @@ class Interp:
             fname=s.mod.aliases[fname]
             if fname in s.hooks: return s.hooks[fname](s,args)
         if fname not in s.mod.funcs: raise Unbound('call to external function without a stub: '+fname)
-        f=s.mod.funcs[fname]; env={}
+        f=s.mod.funcs[fname]; env={}; s.mem.where=fname
         k=0
         for (t,n),a in zip(f.params,args):
             env[n if n else '%%%d'%k]=a; k+=1
@@ -447,7 +474,7 @@ class Interp:
             cut=getattr(s,'cut',None)
             if cut and cut['fn']==fname and cur==cut['header']:
                 cut['visits']=cut.get('visits',0)+1
-                if cut['visits']==1: env.update(cut['on_enter'](s,env))
+                if cut['visits']==1: env.update(cut['on_enter'](s,env,{n:env.get(n) for n in phi_nodes(f,cur)}))
                 else: raise BackEdge(dict(env))
             for l in blk:
                 if ' = phi ' in l: continue
